@@ -115,9 +115,17 @@ static bj::value rjson(int depth) {
     case 2: return (int64_t)rng() >> rnd(60);
     case 3: return (uint64_t)(rng() | (1ull << 63));
     case 4: return (double)(int64_t)rnd(100000) / 8.0 - 1000.0;
-    case 5: { std::string s(rnd(6), 'a'); for (auto &c : s) c = (char)(32 + rnd(90)); return bj::string(s); }
+    case 5: { std::string s(rnd(6), 'a'); for (auto &c : s) c = (char)(rnd(8) == 0 ? 0 : 32 + rnd(90)); return bj::string(s); }     // embedded NULs are legal JSON
     case 6: { bj::array a; size_t n = rnd(4); for (size_t i = 0; i < n; ++i) a.push_back(rjson(depth + 1)); return a; }
-    default: { bj::object o; size_t n = rnd(4); for (size_t i = 0; i < n; ++i) o["k" + std::to_string(rnd(50))] = rjson(depth + 1); return o; }
+    default: {
+      bj::object o; size_t n = rnd(4);
+      for (size_t i = 0; i < n; ++i) {
+        std::string key = "k" + std::to_string(rnd(50));
+        if (rnd(5) == 0) key.insert(key.begin() + 1, '\0');       // member names with an embedded NUL ("\u0000"), and the empty name
+        if (rnd(12) == 0) key.clear();
+        o[key] = rjson(depth + 1);
+      }
+      return o; }
   }
 }
 
@@ -187,6 +195,25 @@ static void archive_mode(uint64_t seed, int count, size_t big) {
         line("J " + jterm(j) + " | " + hex(b) + " | rt=" + std::to_string((int)(j == k)));
       }
     }
+  }
+  // JSON documents (objects at the top level, so that member names - with embedded NULs, empty - are always exercised)
+  for (int i = 0; i < count / 4; ++i) {
+    bj::object o;
+    size_t     n = 1 + rnd(4);
+    for (size_t k = 0; k < n; ++k) {
+      std::string key = "m" + std::to_string(rnd(9));
+      if (rnd(3) == 0) key.insert(key.begin() + 1, '\0');
+      if (rnd(9) == 0) key += std::string(1, '\0') + "x";
+      if (rnd(15) == 0) key.clear();
+      o[key] = rjson(1);
+    }
+    bj::value j = o;
+    std::vector<std::byte> b;
+    { cereal::YGMOutputArchive oa(b); oa(j); }
+    bj::value k;
+    cereal::YGMInputArchive ia(b.data(), b.size());
+    ia(k);
+    line("J " + jterm(j) + " | " + hex(b) + " | rt=" + std::to_string((int)(j == k)));
   }
 }
 
